@@ -5,7 +5,19 @@ Emits (Coq text):
     literals, divisor applied exactly);
   * `offset`, the row-selection rule of `derivative`, translated statement by statement
     from the AugAssign/If block that follows `offset = np.zeros_like(...)`;
-  * `gradient_row`, `hessian_rows`: which table row `gradient` / `hessian` index.
+  * `gradient_row`, `hessian_rows`: which table row `gradient` / `hessian` index
+    (read from the subscripts);
+  * a structural pin of `derivative`, `gradient`, `hessian`: each function, with
+    docstrings, annotations and (call-free) asserts removed, the offset block replaced
+    by a placeholder and every statement that mentions none of the function's own
+    names pruned, must be the reference text REFERENCE below.  So any other store to /
+    use of pos, coeff, x, dxFloat, offset, boundsTuple, axisList, dxArray ..., any
+    statement between the exact-step trick and the row selection, a moved or removed
+    exact-step trick in gradient/hessian, or a second evaluation of f fails closed;
+  * (from effectivePotential.py) the call-site facts of derivT / derivField /
+    deriv2FieldT / deriv2Field2 / allSecondDerivatives: n, order, bounds, which scale,
+    axis selections, result slices, layout of the combined (fields, T) array and of
+    the combined scales (`potential_facts`).
 Anything outside the recognised shapes raises TranslateError (the tie is then broken).
 """
 import ast
@@ -276,21 +288,332 @@ def _uses(fn):
     return res
 
 
+# -- structural pin of derivative / gradient / hessian ------------------------------
+
+REFERENCE = r"""
+def derivative(f, x, n=1, order=4, bounds=None, epsilon=1e-16, scale=1.0, dx=None,
+               args=None):
+    x = np.asarray(x)
+    if bounds is None:
+        boundsTuple = (-np.inf, np.inf)
+    else:
+        boundsTuple = tuple(bounds)
+    if args is None:
+        args = []
+    if n == 0:
+        return f(x, *args)
+    if dx is None:
+        dxFloat = scale * epsilon ** (1 / (n + order))
+    else:
+        dxFloat = float(dx)
+    temp = x + dxFloat
+    dxFloat = temp - x
+    offset = np.zeros_like(x, dtype=int)
+    OFFSET_BLOCK
+    if n == 1:
+        pos = x[None, ...] + FIRST_DERIV_POS[str(order)].T[:, offset.tolist()]*dxFloat
+        coeff = FIRST_DERIV_COEFF[str(order)].T[:, offset.tolist()] / dxFloat
+    elif n == 2:
+        pos = x[None, ...] + SECOND_DERIV_POS[str(order)].T[:, offset.tolist()]*dxFloat
+        coeff = SECOND_DERIV_COEFF[str(order)].T[:, offset.tolist()] / dxFloat**2
+    fx = f(pos, *args)
+    fxShapeLength = len(fx.shape)
+    coeffShapeLength = len(coeff.shape)
+    return np.asarray(np.sum(
+        coeff.reshape(coeff.shape + (fxShapeLength - coeffShapeLength) * (1,))
+        * f(pos, *args),
+        axis=0,
+    ))
+
+
+def gradient(f, x, order=4, epsilon=1e-16, scale=1.0, dx=None, axis=None, args=None):
+    x = np.asarray(x)
+    nbrVariables = x.shape[-1]
+    if args is None:
+        args = []
+    if isinstance(axis, int):
+        axisList = [axis]
+    elif axis is None:
+        axisList = np.arange(nbrVariables).tolist()
+    else:
+        axisList = list(axis)
+    for i in axisList:
+        pass
+    if dx is None:
+        if isinstance(scale, float):
+            scale = scale * np.ones(nbrVariables)
+        else:
+            scale = np.asanyarray(scale)
+        dxArray = scale * epsilon ** (1 / (1 + order))
+    elif isinstance(dx, float):
+        dxArray = dx * np.ones(nbrVariables)
+    else:
+        dxArray = np.asarray(dx)
+    temp = x + dxArray
+    dxArray = temp - x
+    pos = np.expand_dims(x, (-3, -2)) + FIRST_DERIV_POS[str(order)][
+        0, :, None, None
+    ] * np.identity(nbrVariables)[axisList, :] * np.expand_dims(dxArray, (-3, -2))
+    shape = pos.shape[:-1]
+    pos = pos.reshape((int(pos.size / nbrVariables), nbrVariables))
+    coeff = FIRST_DERIV_COEFF[str(order)][0, :, None] / np.expand_dims(
+        dxArray[..., axisList], -2
+    )
+    fEvaluation = f(pos, *args).reshape(shape)
+    return np.asarray(np.sum(coeff * fEvaluation, axis=-2))
+
+
+def hessian(f, x, order=4, epsilon=1e-16, scale=1.0, dx=None, xAxis=None, yAxis=None,
+            args=None):
+    x = np.asarray(x)
+    nbrVariables = x.shape[-1]
+    if args is None:
+        args = []
+    if isinstance(xAxis, int):
+        xAxisList = [xAxis]
+    elif xAxis is None:
+        xAxisList = np.arange(nbrVariables).tolist()
+    else:
+        xAxisList = list(xAxis)
+    for i in xAxisList:
+        pass
+    if isinstance(yAxis, int):
+        yAxisList = [yAxis]
+    elif yAxis is None:
+        yAxisList = np.arange(nbrVariables).tolist()
+    else:
+        yAxisList = list(yAxis)
+    for i in yAxisList:
+        pass
+    if dx is None:
+        if isinstance(scale, float):
+            scale = scale * np.ones(nbrVariables)
+        else:
+            scale = np.asanyarray(scale)
+        dxArray = scale * epsilon ** (1 / (2 + order))
+    elif isinstance(dx, float):
+        dxArray = dx * np.ones(nbrVariables)
+    else:
+        dxArray = np.asarray(dx)
+    temp = x + dxArray
+    dxArray = temp - x
+    pos = (
+        np.expand_dims(x, (-4, -3, -2))
+        + HESSIAN_POS[str(order)][0, :, None, None, None]
+        * np.identity(nbrVariables)[xAxisList, None, :]
+        * np.expand_dims(dxArray, (-4, -3, -2))
+        + HESSIAN_POS[str(order)][1, :, None, None, None]
+        * np.identity(nbrVariables)[None, yAxisList, :]
+        * np.expand_dims(dxArray, (-4, -3, -2))
+    )
+    shape = pos.shape[:-1]
+    pos = pos.reshape((int(pos.size / nbrVariables), nbrVariables))
+    coeff = HESSIAN_COEFF[str(order)][:, None, None] / (
+        np.expand_dims(dxArray[..., yAxisList], (-3, -2))
+        * np.expand_dims(dxArray[..., xAxisList], (-3, -1))
+    )
+    fEvaluation = f(pos, *args).reshape(shape)
+    return np.asarray(np.sum(coeff * fEvaluation, axis=-3))
+"""
+
+# functions an assert may call (asserts are dropped from the pin, so they must be pure)
+_PURE = {"isinstance", "len", "np.all", "np.any", "float", "int", "hasattr", "np.isfinite",
+         "np.shape", "np.ndim", "tuple", "list", "type", "self.areDerivativesConfigured"}
+_UNTRACKED = {"np", "float", "int", "len", "str", "tuple", "list", "isinstance", "OFFSET_BLOCK"}
+
+
+def _check_assert(st):
+    for n in ast.walk(st):
+        if isinstance(n, ast.NamedExpr):
+            raise TranslateError("assert binds a name: " + ast.unparse(st)[:80])
+        if isinstance(n, ast.Call) and ast.unparse(n.func) not in _PURE:
+            raise TranslateError("assert calls %s (asserts are dropped from the pin, so "
+                                 "they may only call pure functions)" % ast.unparse(n.func))
+
+
+def _is_offset_stmt(st):
+    if isinstance(st, ast.AugAssign):
+        return isinstance(st.target, ast.Name) and st.target.id == "offset"
+    if isinstance(st, ast.If):
+        return any(isinstance(s, ast.AugAssign) and isinstance(s.target, ast.Name)
+                   and s.target.id == "offset" for s in ast.walk(st))
+    return False
+
+
+def _canon_body(body, tracked, top=False):
+    """docstrings, asserts, bare annotations and statements that mention no tracked name
+    (and contain no control transfer) removed; the offset block replaced by a placeholder"""
+    out = []
+    i = 0
+    while i < len(body):
+        st = body[i]
+        i += 1
+        if isinstance(st, ast.Expr) and isinstance(st.value, ast.Constant) and \
+                isinstance(st.value.value, str):
+            continue
+        if isinstance(st, ast.Assert):
+            _check_assert(st)
+            continue
+        if isinstance(st, ast.AnnAssign) and st.value is None:
+            continue
+        if isinstance(st, (ast.FunctionDef, ast.AsyncFunctionDef, ast.ClassDef, ast.Lambda,
+                           ast.Global, ast.Nonlocal, ast.Import, ast.ImportFrom, ast.Delete,
+                           ast.With, ast.Try, ast.While)):
+            raise TranslateError("statement kind %s inside a pinned function" %
+                                 type(st).__name__)
+        if isinstance(st, ast.AnnAssign):
+            st = ast.Assign(targets=[st.target], value=st.value, lineno=0)
+        if top and isinstance(st, ast.Assign) and len(st.targets) == 1 and \
+                isinstance(st.targets[0], ast.Name) and st.targets[0].id == "offset":
+            out.append(st)
+            while i < len(body) and (_is_offset_stmt(body[i]) or (
+                    isinstance(body[i], ast.Expr) and isinstance(body[i].value, ast.Name)
+                    and body[i].value.id == "OFFSET_BLOCK")):
+                i += 1
+            out.append(ast.Expr(value=ast.Name(id="OFFSET_BLOCK", ctx=ast.Load())))
+            continue
+        if isinstance(st, ast.Expr) and isinstance(st.value, ast.Name) and \
+                st.value.id == "OFFSET_BLOCK":
+            out.append(st)
+            continue
+        if isinstance(st, ast.If):
+            st = ast.If(test=st.test, body=_canon_body(st.body, tracked) or [ast.Pass()],
+                        orelse=_canon_body(st.orelse, tracked))
+        elif isinstance(st, ast.For):
+            if st.orelse:
+                raise TranslateError("for-else inside a pinned function")
+            st = ast.For(target=st.target, iter=st.iter,
+                         body=_canon_body(st.body, tracked) or [ast.Pass()], orelse=[],
+                         lineno=0)
+        if isinstance(st, ast.Pass):
+            continue
+        transfers = any(isinstance(n, (ast.Return, ast.Raise, ast.Break, ast.Continue,
+                                       ast.Yield, ast.YieldFrom, ast.Await))
+                        for n in ast.walk(st))
+        mentions = any(isinstance(n, ast.Name) and n.id in tracked for n in ast.walk(st))
+        if not (transfers or mentions):
+            continue
+        out.append(st)
+    return out
+
+
+def _canon_fn(fn, tracked=None):
+    """canonical text of a function for the structural pin"""
+    for n in ast.walk(fn):
+        if isinstance(n, ast.NamedExpr):
+            raise TranslateError("walrus in " + fn.name)
+        if isinstance(n, ast.keyword) and n.arg == "out":
+            raise TranslateError("out= keyword in " + fn.name)
+    if fn.decorator_list:
+        raise TranslateError("decorator on " + fn.name)
+    a = fn.args
+    if a.vararg or a.kwarg or a.kwonlyargs or a.posonlyargs:
+        raise TranslateError("signature of " + fn.name)
+    sig = [(x.arg, ast.unparse(d) if d is not None else None) for x, d in
+           zip(a.args, [None] * (len(a.args) - len(a.defaults)) + list(a.defaults))]
+    if tracked is None:
+        tracked = {n.id for n in ast.walk(fn) if isinstance(n, ast.Name)} | \
+            {x.arg for x in a.args}
+        tracked -= _UNTRACKED
+    body = _canon_body(fn.body, tracked, top=True)
+    text = "\n".join(ast.unparse(ast.fix_missing_locations(st)) for st in body)
+    return sig, text, tracked
+
+
+def pin_functions(tree):
+    """derivative/gradient/hessian must be the reference modulo docstrings, annotations,
+    pure asserts, the (translated) offset block and statements touching none of the
+    reference's names"""
+    ref = {f.name: f for f in ast.parse(REFERENCE).body if isinstance(f, ast.FunctionDef)}
+    fns = {}
+    for f in tree.body:
+        if isinstance(f, ast.FunctionDef):
+            if f.name in fns:
+                raise TranslateError("function %s defined twice" % f.name)
+            fns[f.name] = f
+    for name, rf in ref.items():
+        if name not in fns:
+            raise TranslateError("no function " + name)
+        rsig, rtext, tracked = _canon_fn(rf)
+        sig, text, _ = _canon_fn(fns[name], tracked)
+        if sig != rsig:
+            raise TranslateError("signature/defaults of %s are %r, reference %r" %
+                                 (name, sig, rsig))
+        if text != rtext:
+            a, b = text.splitlines(), rtext.splitlines()
+            k = next((j for j in range(min(len(a), len(b))) if a[j] != b[j]),
+                     min(len(a), len(b)))
+            raise TranslateError(
+                "%s differs from the modelled reference at canonical line %d: source has "
+                "%r, model expects %r" % (name, k + 1, a[k][:150] if k < len(a) else "<end>",
+                                          b[k][:150] if k < len(b) else "<end>"))
+    # the tables and the three functions are not rebound or mutated elsewhere in the module
+    watch = set(TABLES) | set(ref)
+    for st in tree.body:
+        if isinstance(st, ast.FunctionDef) and st.name in ref:
+            continue
+        if isinstance(st, ast.Assign) and len(st.targets) == 1 and \
+                isinstance(st.targets[0], ast.Name) and st.targets[0].id in TABLES:
+            names = {n.id for n in ast.walk(st.value) if isinstance(n, ast.Name)}
+            if names & watch:
+                raise TranslateError("table defined from another table")
+            continue
+        for n in ast.walk(st):
+            if isinstance(n, ast.Name) and n.id in watch:
+                raise TranslateError("%s is used or modified outside its definition "
+                                     "(line %d)" % (n.id, getattr(n, "lineno", 0)))
+            if isinstance(n, (ast.FunctionDef, ast.ClassDef)) and n.name in watch:
+                raise TranslateError("%s redefined" % n.name)
+    seen = [st.targets[0].id for st in tree.body if isinstance(st, ast.Assign)
+            and len(st.targets) == 1 and isinstance(st.targets[0], ast.Name)
+            and st.targets[0].id in TABLES]
+    if sorted(seen) != sorted(TABLES):
+        raise TranslateError("tables assigned %r" % seen)
+    return {name: dict(_canon_fn(fns[name])[0]) for name in ref}
+
+
+def _table_row(node, table):
+    """TABLE[str(order)][k, ...] -> k"""
+    if isinstance(node, ast.Subscript) and isinstance(node.value, ast.Subscript) and \
+            isinstance(node.value.value, ast.Name) and node.value.value.id == table and \
+            ast.unparse(node.value.slice) == "str(order)":
+        sl = node.slice
+        first = sl.elts[0] if isinstance(sl, ast.Tuple) else sl
+        if isinstance(first, ast.Constant) and isinstance(first.value, int) and \
+                not isinstance(first.value, bool) and first.value >= 0:
+            return first.value
+        raise TranslateError("row index of %s is not a literal" % table)
+    return None
+
+
 def grad_hess_rows(tree):
-    """row indices used by gradient / hessian (from the subscript expressions)"""
+    """row indices used by gradient / hessian (read from the subscript expressions)"""
     fns = {f.name: f for f in tree.body if isinstance(f, ast.FunctionDef)}
-    g = ast.unparse(fns["gradient"])
-    h = ast.unparse(fns["hessian"])
-    if "FIRST_DERIV_POS[str(order)][0, :, None, None]" not in g or \
-            "FIRST_DERIV_COEFF[str(order)][0, :, None]" not in g:
-        raise TranslateError("gradient does not use row 0 of the first-derivative tables")
-    if "HESSIAN_POS[str(order)][0, :, None, None, None] * np.identity(nbrVariables)" \
-       "[xAxisList, None, :]" not in h or \
-       "HESSIAN_POS[str(order)][1, :, None, None, None] * np.identity(nbrVariables)" \
-       "[None, yAxisList, :]" not in h or "HESSIAN_COEFF[str(order)][:, None, None]" \
-            not in h:
-        raise TranslateError("hessian does not use HESSIAN_POS rows 0/1 for x/y axes")
-    return 0, (0, 1)
+    rows = {}
+    for n in ast.walk(fns["gradient"]):
+        for t in ("FIRST_DERIV_POS", "FIRST_DERIV_COEFF"):
+            k = _table_row(n, t)
+            if k is not None:
+                rows.setdefault(t, set()).add(k)
+    if any(len(rows.get(t, ())) != 1 for t in ("FIRST_DERIV_POS", "FIRST_DERIV_COEFF")) or \
+            rows["FIRST_DERIV_POS"] != rows["FIRST_DERIV_COEFF"]:
+        raise TranslateError("gradient indexes rows %r of the first-derivative tables" % rows)
+    hx = hy = None
+    for n in ast.walk(fns["hessian"]):
+        if isinstance(n, ast.BinOp) and isinstance(n.op, ast.Mult):
+            k = _table_row(n.left, "HESSIAN_POS")
+            if k is None:
+                continue
+            r = ast.unparse(n.right)
+            if r == "np.identity(nbrVariables)[xAxisList, None, :]" and hx is None:
+                hx = k
+            elif r == "np.identity(nbrVariables)[None, yAxisList, :]" and hy is None:
+                hy = k
+            else:
+                raise TranslateError("HESSIAN_POS row %d multiplies %s" % (k, r))
+    if hx is None or hy is None:
+        raise TranslateError("hessian does not use one HESSIAN_POS row per axis list")
+    return rows["FIRST_DERIV_POS"].pop(), (hx, hy)
 
 
 def generate(src_text):
@@ -301,6 +624,7 @@ def generate(src_text):
         raise TranslateError("no function derivative")
     bounds_norm(fns["derivative"])
     rule, _ = offset_rule(fns["derivative"])
+    defaults = pin_functions(tree)
     grow, hrows = grad_hess_rows(tree)
     out = ["(* generated from src/WallGo/helpers.py -- do not edit *)",
            "From Coq Require Import List ZArith QArith.",
@@ -315,4 +639,359 @@ def generate(src_text):
     out.append("Definition gradient_row : nat := %d." % grow)
     out.append("Definition hessian_xrow : nat := %d." % hrows[0])
     out.append("Definition hessian_yrow : nat := %d." % hrows[1])
+    for fn in ("derivative", "gradient", "hessian"):
+        d = defaults[fn]
+        out.append("Definition %s_default_order : Z := %d%%Z." % (fn, _int_default(d, "order", fn)))
+    out.append("Definition derivative_default_n : nat := %d." %
+               _int_default(defaults["derivative"], "n", "derivative"))
     return "\n".join(out) + "\n", tb
+
+
+def _int_default(d, arg, fn):
+    v = d.get(arg)
+    try:
+        return int(v)
+    except (TypeError, ValueError):
+        raise TranslateError("default of %s in %s is %r" % (arg, fn, v))
+
+
+# -- call sites in effectivePotential.py ------------------------------------------------
+
+def _sel(node):
+    """last-axis selection  z | :z | :  -> Coq pysel"""
+    if isinstance(node, ast.Slice):
+        if node.lower is not None or node.step is not None:
+            raise TranslateError("slice " + ast.unparse(node))
+        if node.upper is None:
+            return "AllSel"
+        return "(UpTo (%d))" % _intlit(node.upper)
+    return "(Idx (%d))" % _intlit(node)
+
+
+def _intlit(node):
+    try:
+        v = _num(node)
+    except TranslateError:
+        raise TranslateError("index is not an integer literal: " + ast.unparse(node))
+    if v.denominator != 1:
+        raise TranslateError("index is not an integer: " + ast.unparse(node))
+    return int(v)
+
+
+def _ellipsis_sub(node, base, nsel):
+    """base[..., s1, .., s_nsel] -> [sel]"""
+    if not (isinstance(node, ast.Subscript) and ast.unparse(node.value) == base and
+            isinstance(node.slice, ast.Tuple) and len(node.slice.elts) == nsel + 1 and
+            isinstance(node.slice.elts[0], ast.Constant) and node.slice.elts[0].value is Ellipsis):
+        raise TranslateError("expected %s[..., %s], found %s" % (
+            base, ", ".join("s" * 1 for _ in range(nsel)), ast.unparse(node)))
+    return [_sel(e) for e in node.slice.elts[1:]]
+
+
+def _axes(node, env):
+    if node is None or (isinstance(node, ast.Constant) and node.value is None):
+        return "AxNone"
+    if isinstance(node, ast.Name) and node.id in env:
+        return _axes(env[node.id], {})
+    if ast.unparse(node) == "np.arange(self.fieldCount).tolist()":
+        return "AxFieldRange"
+    try:
+        return "(AxInt (%d))" % _intlit(node)
+    except TranslateError:
+        raise TranslateError("axis selection " + ast.unparse(node))
+
+
+def _bound_lit(node, upper):
+    u = ast.unparse(node)
+    if u in ("np.inf", "+np.inf", "inf", "math.inf", "float('inf')"):
+        return "PosInf"
+    if u in ("-np.inf", "-inf", "-math.inf", "float('-inf')"):
+        return "NegInf"
+    return "(Fin %s)" % qlit(_num(node))
+
+
+_SCALES = {"self.derivativeSettings.temperatureVariationScale": "TempScale",
+           "self.derivativeSettings.fieldValueVariationScale": "FieldScale"}
+_WRAP = "self.__wrapperPotential"
+_COMB = "self.__combineInputs(fields, temperature)"
+_EPS = "self.effectivePotentialError"
+
+
+def _method_body(m):
+    if m.decorator_list:
+        raise TranslateError("decorator on EffectivePotential." + m.name)
+    tracked = {n.id for n in ast.walk(m) if isinstance(n, ast.Name)} | \
+        {x.arg for x in m.args.args}
+    for n in ast.walk(m):
+        if isinstance(n, (ast.NamedExpr, ast.Global, ast.Nonlocal)):
+            raise TranslateError("unsupported construct in " + m.name)
+    return _canon_body(m.body, tracked - {"np"} | {"self"})
+
+
+def _helper_call(node, fname, allowed, what):
+    if not (isinstance(node, ast.Call) and isinstance(node.func, ast.Name)
+            and node.func.id == fname):
+        raise TranslateError("%s: expected a call of helpers.%s, found %s" % (
+            what, fname, ast.unparse(node)[:80]))
+    kws = {}
+    for kw in node.keywords:
+        if kw.arg is None or kw.arg not in allowed:
+            raise TranslateError("%s passes %s= to %s (the model assumes the step is "
+                                 "scale*epsilon**(1/(n+order)) and default args)" %
+                                 (what, kw.arg, fname))
+        if kw.arg in kws:
+            raise TranslateError("keyword repeated")
+        kws[kw.arg] = kw.value
+    return node.args, kws
+
+
+def _std_call(node, fname, what, axis_keys):
+    """fname(self.__wrapperPotential, self.__combineInputs(fields, temperature),
+    epsilon=self.effectivePotentialError, scale=self.__combinedScales[, order=k][, axes])"""
+    args, kws = _helper_call(node, fname, {"epsilon", "scale", "order"} | set(axis_keys), what)
+    if [ast.unparse(a) for a in args] != [_WRAP, _COMB]:
+        raise TranslateError("%s calls %s on %r" % (what, fname,
+                                                    [ast.unparse(a) for a in args]))
+    if "epsilon" not in kws or ast.unparse(kws["epsilon"]) != _EPS:
+        raise TranslateError("%s: epsilon is not %s" % (what, _EPS))
+    if "scale" not in kws or ast.unparse(kws["scale"]) != "self.__combinedScales":
+        raise TranslateError("%s: scale is not self.__combinedScales" % what)
+    return kws
+
+
+def potential_facts(pot_src, helpers_src):
+    """Coq text with the call-site facts of EffectivePotential's derivative methods."""
+    htree = ast.parse(helpers_src)
+    hdef = {}
+    for f in htree.body:
+        if isinstance(f, ast.FunctionDef) and f.name in ("derivative", "gradient", "hessian"):
+            hdef[f.name] = dict(_canon_fn(f)[0])
+    tree = ast.parse(pot_src)
+    imp = [st for st in tree.body if isinstance(st, ast.ImportFrom)
+           and st.module == "helpers" and st.level == 1]
+    if len(imp) != 1 or sorted((a.name, a.asname) for a in imp[0].names) != \
+            [("derivative", None), ("gradient", None), ("hessian", None)]:
+        raise TranslateError("effectivePotential.py does not import derivative, gradient, "
+                             "hessian from .helpers")
+    for st in tree.body:
+        if st is imp[0]:
+            continue
+        for n in ast.walk(st):
+            if isinstance(n, ast.Name) and n.id in hdef and isinstance(n.ctx, (ast.Store,
+                                                                                ast.Del)):
+                raise TranslateError("%s rebound in effectivePotential.py" % n.id)
+            if isinstance(n, (ast.FunctionDef, ast.ClassDef)) and n.name in hdef:
+                raise TranslateError("%s redefined in effectivePotential.py" % n.name)
+            if isinstance(n, (ast.Import, ast.ImportFrom)) and n is not st:
+                raise TranslateError("nested import in effectivePotential.py")
+            if isinstance(n, (ast.Import, ast.ImportFrom)) and any(
+                    (a.asname or a.name) in hdef for a in n.names):
+                raise TranslateError("helper name imported twice")
+    cls = [c for c in tree.body if isinstance(c, ast.ClassDef)
+           and c.name == "EffectivePotential"]
+    if len(cls) != 1:
+        raise TranslateError("class EffectivePotential not found")
+    cls = cls[0]
+    meth = {}
+    for m in cls.body:
+        if isinstance(m, ast.FunctionDef):
+            if m.name in meth:
+                raise TranslateError("method %s defined twice" % m.name)
+            meth[m.name] = m
+    # --- object state: only configureDerivatives writes attributes of self ------------
+    for m in meth.values():
+        for n in ast.walk(m):
+            if isinstance(n, ast.Call) and ast.unparse(n.func) in (
+                    "setattr", "delattr", "getattr", "vars", "object.__setattr__"):
+                raise TranslateError("%s uses %s(...)" % (m.name, ast.unparse(n.func)))
+            if isinstance(n, ast.Attribute) and n.attr in ("__dict__", "__class__"):
+                raise TranslateError("%s touches %s" % (m.name, n.attr))
+            if isinstance(n, (ast.Attribute, ast.Subscript)) and \
+                    isinstance(n.ctx, (ast.Store, ast.Del)):
+                root = n
+                while isinstance(root, (ast.Attribute, ast.Subscript)):
+                    root = root.value
+                if isinstance(root, ast.Name) and root.id in ("self", "cls") and \
+                        m.name != "configureDerivatives":
+                    raise TranslateError(
+                        "EffectivePotential.%s stores %s: the model has no state besides "
+                        "the derivative settings written by configureDerivatives" %
+                        (m.name, ast.unparse(n)))
+    need = ["configureDerivatives", "__wrapperPotential", "__combineInputs", "derivT",
+            "derivField", "deriv2FieldT", "deriv2Field2", "allSecondDerivatives"]
+    for k in need:
+        if k not in meth:
+            raise TranslateError("no method EffectivePotential." + k)
+    facts = {}
+    # --- configureDerivatives: layout of the combined scales -----------------------------
+    stores = [n for n in ast.walk(cls) if isinstance(n, (ast.Assign, ast.AugAssign,
+                                                         ast.AnnAssign))
+              and any(ast.unparse(t) == "self.__combinedScales" for t in
+                      (n.targets if isinstance(n, ast.Assign) else [n.target]))
+              and not (isinstance(n, ast.AnnAssign) and n.value is None)]
+    cd = _method_body(meth["configureDerivatives"])
+    if len(stores) != 1 or not isinstance(stores[0], ast.Assign) or \
+            ast.unparse(cd[-1]) != ast.unparse(stores[0]):
+        raise TranslateError("self.__combinedScales is not assigned exactly once, as the last "
+                             "statement of configureDerivatives")
+    v = stores[0].value
+    if not (isinstance(v, ast.Call) and ast.unparse(v.func) == "np.append"
+            and len(v.args) == 2 and not v.keywords
+            and all(ast.unparse(a) in _SCALES for a in v.args)):
+        raise TranslateError("combined scales are " + ast.unparse(v))
+    facts["scales_layout"] = "[%s]" % "; ".join(_SCALES[ast.unparse(a)] for a in v.args)
+    want_cd = [
+        "self.derivativeSettings = copy.copy(settings)",
+        "if isinstance(settings.fieldValueVariationScale, float):\n"
+        "    self.derivativeSettings.fieldValueVariationScale = "
+        "settings.fieldValueVariationScale * np.ones(self.fieldCount)\n"
+        "else:\n"
+        "    self.derivativeSettings.fieldValueVariationScale = "
+        "np.asanyarray(settings.fieldValueVariationScale)"]
+    got_cd = [ast.unparse(ast.fix_missing_locations(s)) for s in cd[:-1]]
+    if got_cd != want_cd:
+        raise TranslateError("configureDerivatives normalises the scales by %r, model "
+                             "expects %r" % (got_cd, want_cd))
+    # --- __combineInputs / __wrapperPotential: layout of the combined array -----------
+    ci = _method_body(meth["__combineInputs"])
+    txt = [ast.unparse(ast.fix_missing_locations(s)) for s in ci]
+    if len(ci) != 6 or txt[0] != "shape = list(fields.shape)" or txt[1] != "shape[-1] += 1" \
+            or txt[2] != "combinedInput = np.empty(shape)" or txt[5] != "return combinedInput":
+        raise TranslateError("__combineInputs is %r" % txt)
+    lay = {}
+    for st in ci[3:5]:
+        if not (isinstance(st, ast.Assign) and len(st.targets) == 1 and
+                isinstance(st.value, ast.Name) and st.value.id in ("fields", "temperature")):
+            raise TranslateError("__combineInputs: " + ast.unparse(st))
+        lay[st.value.id] = _ellipsis_sub(st.targets[0], "combinedInput", 1)[0]
+    if sorted(lay) != ["fields", "temperature"]:
+        raise TranslateError("__combineInputs does not store fields and temperature")
+    facts["combine_fields"], facts["combine_T"] = lay["fields"], lay["temperature"]
+    wp = _method_body(meth["__wrapperPotential"])
+    if [a.arg for a in meth["__wrapperPotential"].args.args] != ["self", "X"] or len(wp) != 3 \
+            or ast.unparse(wp[2]) != "return self.evaluate(fields, temperature)":
+        raise TranslateError("__wrapperPotential is not (fields, temperature) -> evaluate")
+    a0, a1 = wp[0], wp[1]
+    if not (isinstance(a0, ast.Assign) and ast.unparse(a0.targets[0]) == "fields" and
+            isinstance(a0.value, ast.Call) and ast.unparse(a0.value.func) == "Fields" and
+            len(a0.value.args) == 1 and not a0.value.keywords and
+            isinstance(a1, ast.Assign) and ast.unparse(a1.targets[0]) == "temperature"):
+        raise TranslateError("__wrapperPotential: %s / %s" % (ast.unparse(a0),
+                                                              ast.unparse(a1)))
+    facts["wrapper_fields"] = _ellipsis_sub(a0.value.args[0], "X", 1)[0]
+    facts["wrapper_T"] = _ellipsis_sub(a1.value, "X", 1)[0]
+    # --- derivT ------------------------------------------------------------------------
+    b = _method_body(meth["derivT"])
+    if len(b) == 2 and isinstance(b[0], ast.Assign) and len(b[0].targets) == 1 and \
+            isinstance(b[0].targets[0], ast.Name) and isinstance(b[1], ast.Return) and \
+            ast.unparse(b[1].value) == b[0].targets[0].id:
+        call = b[0].value
+    elif len(b) == 1 and isinstance(b[0], ast.Return):
+        call = b[0].value
+    else:
+        raise TranslateError("derivT is not `return derivative(...)`")
+    args, kws = _helper_call(call, "derivative", {"n", "order", "epsilon", "scale", "bounds"},
+                             "derivT")
+    if len(args) != 2 or ast.unparse(args[0]) != "lambda T: self.evaluate(fields, T)" or \
+            ast.unparse(args[1]) != "temperature":
+        raise TranslateError("derivT differentiates %r" % [ast.unparse(a) for a in args])
+    if "epsilon" not in kws or ast.unparse(kws["epsilon"]) != _EPS:
+        raise TranslateError("derivT: epsilon is not " + _EPS)
+    if "scale" not in kws or ast.unparse(kws["scale"]) not in _SCALES:
+        raise TranslateError("derivT: scale is %s" % (ast.unparse(kws["scale"])
+                                                      if "scale" in kws else None))
+    facts["derivT_scale"] = _SCALES[ast.unparse(kws["scale"])]
+    facts["derivT_n"] = "%d" % (_intlit(kws["n"]) if "n" in kws else
+                                 _int_default(hdef["derivative"], "n", "derivative"))
+    facts["derivT_order"] = "(%d)%%Z" % (_intlit(kws["order"]) if "order" in kws else
+                                         _int_default(hdef["derivative"], "order",
+                                                      "derivative"))
+    bn = kws.get("bounds")
+    if bn is None or (isinstance(bn, ast.Constant) and bn.value is None):
+        facts["derivT_lb"], facts["derivT_ub"] = "NegInf", "PosInf"
+    elif isinstance(bn, (ast.Tuple, ast.List)) and len(bn.elts) == 2:
+        facts["derivT_lb"] = _bound_lit(bn.elts[0], False)
+        facts["derivT_ub"] = _bound_lit(bn.elts[1], True)
+    else:
+        raise TranslateError("derivT bounds " + ast.unparse(bn))
+
+    def order_of(kws, fname):
+        return "(%d)%%Z" % (_intlit(kws["order"]) if "order" in kws else
+                            _int_default(hdef[fname], "order", fname))
+    # --- derivField ----------------------------------------------------------------------
+    b = _method_body(meth["derivField"])
+    if len(b) != 1 or not isinstance(b[0], ast.Return):
+        raise TranslateError("derivField is not `return gradient(...)`")
+    kws = _std_call(b[0].value, "gradient", "derivField", ["axis"])
+    facts["derivField_axis"] = _axes(kws.get("axis"), {})
+    facts["derivField_order"] = order_of(kws, "gradient")
+    # --- deriv2FieldT ----------------------------------------------------------------------
+    b = _method_body(meth["deriv2FieldT"])
+    if not (len(b) == 2 and isinstance(b[0], ast.Assign) and
+            ast.unparse(b[0].targets[0]) == "res" and ast.unparse(b[1]) == "return res" and
+            isinstance(b[0].value, ast.Subscript)):
+        raise TranslateError("deriv2FieldT is not res = hessian(...)[..., k]; return res")
+    kws = _std_call(b[0].value.value, "hessian", "deriv2FieldT", ["xAxis", "yAxis"])
+    sl = b[0].value.slice
+    if not (isinstance(sl, ast.Tuple) and len(sl.elts) == 2 and
+            isinstance(sl.elts[0], ast.Constant) and sl.elts[0].value is Ellipsis):
+        raise TranslateError("deriv2FieldT result index " + ast.unparse(sl))
+    facts["deriv2FieldT_post"] = _sel(sl.elts[1])
+    facts["deriv2FieldT_x"] = _axes(kws.get("xAxis"), {})
+    facts["deriv2FieldT_y"] = _axes(kws.get("yAxis"), {})
+    facts["deriv2FieldT_order"] = order_of(kws, "hessian")
+    # --- deriv2Field2 ----------------------------------------------------------------------
+    b = _method_body(meth["deriv2Field2"])
+    env = {}
+    for st in b[:-1]:
+        if not (isinstance(st, ast.Assign) and len(st.targets) == 1 and
+                isinstance(st.targets[0], ast.Name) and st.targets[0].id not in env):
+            raise TranslateError("deriv2Field2: " + ast.unparse(st))
+        env[st.targets[0].id] = st.value
+    if not b or not isinstance(b[-1], ast.Return):
+        raise TranslateError("deriv2Field2 is not `return hessian(...)`")
+    kws = _std_call(b[-1].value, "hessian", "deriv2Field2", ["xAxis", "yAxis"])
+    facts["deriv2Field2_x"] = _axes(kws.get("xAxis"), env)
+    facts["deriv2Field2_y"] = _axes(kws.get("yAxis"), env)
+    facts["deriv2Field2_order"] = order_of(kws, "hessian")
+    # --- allSecondDerivatives ------------------------------------------------------------------
+    b = _method_body(meth["allSecondDerivatives"])
+    if not (len(b) == 5 and isinstance(b[0], ast.Assign) and
+            ast.unparse(b[0].targets[0]) == "res" and
+            ast.unparse(b[4]) == "return (hess, dgraddT, d2VdT2)"):
+        raise TranslateError("allSecondDerivatives is not res = hessian(...); three slices; "
+                             "return (hess, dgraddT, d2VdT2)")
+    kws = _std_call(b[0].value, "hessian", "allSecondDerivatives", ["xAxis", "yAxis"])
+    facts["allSecond_x"] = _axes(kws.get("xAxis"), {})
+    facts["allSecond_y"] = _axes(kws.get("yAxis"), {})
+    facts["allSecond_order"] = order_of(kws, "hessian")
+    got = {}
+    for st in b[1:4]:
+        if not (isinstance(st, ast.Assign) and len(st.targets) == 1 and
+                isinstance(st.targets[0], ast.Name)):
+            raise TranslateError("allSecondDerivatives: " + ast.unparse(st))
+        r, c = _ellipsis_sub(st.value, "res", 2)
+        got[st.targets[0].id] = "(%s, %s)" % (r, c)
+    if sorted(got) != ["d2VdT2", "dgraddT", "hess"]:
+        raise TranslateError("allSecondDerivatives slices %r" % sorted(got))
+    facts["allSecond_hess"], facts["allSecond_dgraddT"], facts["allSecond_d2VdT2"] = \
+        got["hess"], got["dgraddT"], got["d2VdT2"]
+    types = dict(scales_layout="list scale_kind", derivT_scale="scale_kind", derivT_n="nat",
+                 derivT_lb="bound", derivT_ub="bound")
+    out = ["(* generated from src/WallGo/effectivePotential.py -- do not edit *)",
+           "From Coq Require Import List ZArith QArith.",
+           "From WG Require Import Lib.Stencil.",
+           "Import ListNotations.", ""]
+    for k in sorted(facts):
+        if k in types:
+            ty = types[k]
+        elif k.endswith("_order"):
+            ty = "Z"
+        elif k.startswith("allSecond_") and k[10:] in ("hess", "dgraddT", "d2VdT2"):
+            ty = "pysel * pysel"
+        elif k.startswith(("combine_", "wrapper_")) or k.endswith("_post"):
+            ty = "pysel"
+        else:
+            ty = "axes"
+        out.append("Definition %s : %s := %s." % (k, ty, facts[k]))
+    return "\n".join(out) + "\n", facts
